@@ -11,7 +11,6 @@ class Prop:
     engine = "TH (controlled threads: baton passing, line-level pre-emption points, simulated locks)"
     quick_runs = 30000
     thorough_runs = 400000
-    quick_budget = 70.0
     chunk = 100
     time_unit = "simulated microseconds"
     rule = ("Disposable / BooleanDisposable: 1 thread x 2-7 calls or 2-3 controlled threads x 1-3 calls of dispose()/is_disposed with 0-3 "
